@@ -265,6 +265,27 @@ theorem C09_store_get_doc (C : Compression) (hC : GoodCompression C) (bs : Nat) 
     obtain ⟨a, ha, rfl⟩ := List.mem_map.mp hd
     exact ⟨C09_serialized_doc_nonempty isStored a, hfit a ha⟩
 
+/-- End to end on the model: documents (their stored field values, in-memory reading, any shapes)
+are added — each serialized by `serialize_doc`, appended to the store with any block size and codec —
+and fetched by doc id: the deserialized document, handed back to a `TantivyDocument`, is exactly
+the list of (field, value) pairs that was added, for every document id. -/
+theorem C09_add_then_fetch (C : Compression) (hC : GoodCompression C) (bs : Nat) (hbs : bs < 4294967296)
+    (added : List (List (BitVec 32 × StoredValue))) (hne : added ≠ [])
+    (hfit : ∀ d ∈ added, bs + (encStoredDoc (docToDisk d)).length < 4294967296)
+    (i : Nat) (hi : i < added.length) :
+    ((getBytes C (writtenStore C Gen.STORE_INDEX_ENTRY_COST Gen.CHECKPOINT_PERIOD bs
+        (added.map fun d => encStoredDoc (docToDisk d))) i).bind deserializeDoc).map docToMem
+      = some added[i] := by
+  rw [C09_store_get C hC _ _ bs (by decide) (by decide) hbs _ (by simpa using hne)]
+  · simp only [List.getElem?_map, List.getElem?_eq_getElem hi, Option.map_some, Option.bind_some]
+    have := deserialize_encStoredDoc (docToDisk added[i]) []
+    rw [List.append_nil] at this
+    rw [this]
+    simp [docToMem_docToDisk]
+  · intro d hd
+    obtain ⟨a, ha, rfl⟩ := List.mem_map.mp hd
+    exact ⟨encStoredDoc_ne_nil _, hfit a ha⟩
+
 /-! ### lz4 / zstd: the length frame around the raw block codec -/
 
 /-- contract of the raw codec (`lz4_flex` block / `zstd::bulk`): given the announced output size it
@@ -386,6 +407,15 @@ theorem C09_cache_transparent_written (C : Compression) (hC : GoodCompression C)
   apply List.map_congr_left
   intro i _
   exact holds_get C hC.roundtrip P hP sf docs hne h i
+
+/-- `iter_raw` reads its blocks through the same cache (`read_block`): for every store the writer
+or a merge produces, every mix of fetches and iterations (with any alive bitsets) on one reader,
+in any order and with any cache capacity, returns exactly what the uncached reads return -/
+theorem C09_cache_transparent_get_and_iter (C : Compression) (hC : GoodCompression C) (P : Nat) (hP : 2 ≤ P)
+    (sf : StoreFile) (docs : List Bytes) (hne : docs ≠ []) (h : Holds C P sf docs)
+    (cap : Nat) (ops : List ReaderOp) :
+    (runOps C sf (BlockCache.new cap) ops).1 = ops.map (ReaderOp.plain C sf) :=
+  holds_runOps C hC.nonempty P hP sf docs hne h cap ops
 
 /-- a cache keyed by something that does not determine the block is *not* transparent: two
 checkpoints with the same key and different blocks (the state a wrong key after stacking would
@@ -629,5 +659,17 @@ example : (deserializeDoc (encStoredDoc ([(0, StoredValue.f64 5)].map fun fv => 
 /-- a descending sort of three documents through a temporary store with 16 000-byte blocks -/
 example : ([2, 1, 0] : List Nat).mapM (getBytes Compression.none (writtenStore Compression.none 8 8 16000 [[1], [2, 2], [3]]))
     = some [[3], [2, 2], [1]] := by decide +kernel
+
+example : ((getBytes Compression.none (writtenStore Compression.none Gen.STORE_INDEX_ENTRY_COST Gen.CHECKPOINT_PERIOD 16
+      ([[(0, StoredValue.f64 5)], [], [(2, .array [.null]), (0, .str [1])]].map fun d => encStoredDoc (docToDisk d))) 2).bind
+      deserializeDoc).map docToMem = some [(2, .array [.null]), (0, .str [1])] :=
+  C09_add_then_fetch Compression.none ⟨fun _ => rfl, fun _ h => h⟩ 16 (by decide) _ (by decide)
+    (by decide +kernel) 2 (by decide)
+
+/-- iterate, fetch, iterate with deletes, through a one-block cache over a three-block store -/
+example : (runOps Compression.none (writtenStore Compression.none 8 8 9 [[1], [2, 3, 4, 5, 6, 7, 8, 9, 10, 11, 12], [13, 14]])
+    (BlockCache.new 1) [.iter [], .get 2, .iter [false, true, true], .get 0]).1
+    = [[some [1], some [2, 3, 4, 5, 6, 7, 8, 9, 10, 11, 12], some [13, 14]], [some [13, 14]],
+       [some [2, 3, 4, 5, 6, 7, 8, 9, 10, 11, 12], some [13, 14]], [some [1]]] := by decide +kernel
 
 end TantivyModel.C09
